@@ -1,7 +1,7 @@
 """C01 -- every factor reported for an RSA modulus really divides it."""
 import itertools
 
-from pmc import alpha_rsa, art, world
+from pmc import alpha_rsa, art, gen_rsa, world
 from pmc.core import Result, Task, guarded
 from pmc.refs import nt
 
@@ -218,6 +218,7 @@ def _check_configs(w):
          ('CheckBitPatterns[[1]]', S.CheckBitPatterns, [[1]]),
          ('CheckBitPatterns[[7,8]]', S.CheckBitPatterns, [[7, 8]]),
          ('CheckBitPatterns[[4096]]', S.CheckBitPatterns, [[4096]]),
+         ('CheckBitPatterns[[255,511]]', S.CheckBitPatterns, [[255, 511]]),
          ('CheckPermutedBitPatterns', S.CheckPermutedBitPatterns, []),
          ('CheckPollardpm1', S.CheckPollardpm1, []),
          ('CheckPollardpm1[64]', S.CheckPollardpm1, [64]),
@@ -261,6 +262,8 @@ def _oracle(keys, ns, label):
 def case_check(check, names):
   w = world.load()
   alpha = {nm: n for nm, n, _ in alpha_rsa.alphabet(_u512())}
+  if 'bit-pattern-255-4096' in names:
+    alpha['bit-pattern-255-4096'] = gen_rsa.bit_pattern(4096, 255, 16, 0)['n']
   ns = [alpha[nm] for nm in names]
   keys = [art.rsa_key(n) for n in ns]
   if check == 'CheckAllRSA':
@@ -321,6 +324,32 @@ def checks(check, kind, thorough):
   return r
 
 
+CARRY_WEAK = ['fermat-2048', 'fermat-128', 'high-low-equal-1024', 'upper-diff-1024',
+              'upper-diff-2048', 'unseeded-1024', 'bit-pattern-2048', 'bit-pattern-255-4096',
+              'permuted-pattern-1024', 'both-patterned-1024', 'low-hamming-1024',
+              'pm1-one-smooth-1024', 'roca-1024', 'keypair-2048', 'shared-a', '2p-65', 'cube']
+CARRY_CLEAN = ['strong-1024', 'strong-65', 'strong-3072']
+
+
+def carry(check):
+  """A key for which the check records something, followed (and preceded) by clean keys of
+  *other sizes* in the same Check() call: nothing recorded for the first key may reach the
+  second (state carried over between loop iterations, size-dependent skips)."""
+  r = Result()
+  for wk in CARRY_WEAK:
+    for cl in CARRY_CLEAN:
+      for names in ([wk, cl], [cl, wk, cl]):
+        bad = case_check(check, names)
+        r.ev('%s/carry/%s' % (check.split('[')[0], 'recorded' if LAST['recorded'] else 'none'),
+             LAST['recorded'])
+        for b in bad[:2]:
+          r.violation(b, {'fn': 'check', 'args': {'check': check, 'names': names}})
+    if len(r.violations) > 6:
+      break
+  r.sample({'check': check, 'weak_keys': CARRY_WEAK, 'clean_keys_of_other_sizes': CARRY_CLEAN})
+  return r
+
+
 CASES = {'helper': case_helper, 'check': case_check}
 
 
@@ -350,8 +379,13 @@ def plan(tier, seed):
                                           'CheckGCDN1[2]'):
         continue
       T.append(Task('check-level', 'checks', {'check': nm, 'kind': kind, 'thorough': thorough},
-                    bound='27 check configurations + CheckAllRSA x (44 single keys, %s pairs, '
+                    bound='28 check configurations + CheckAllRSA x (44 single keys, %s pairs, '
                     'triples for the aggregate checks and CheckAllRSA)' %
                     ('all ordered pairs of a 12-key sub-alphabet +' if thorough else '57'),
                     weight=3e7 if nm in ('CheckAllRSA', 'CheckLowHammingWeight') else 5e6))
+    if nm != 'CheckAllRSA' or thorough:
+      T.append(Task('carry-over', 'carry', {'check': nm},
+                    bound='28 check configurations x 17 keys the checks record something for x 3 '
+                    'clean keys of other sizes, batches [weak, clean] and [clean, weak, clean]',
+                    weight=2e7 if nm == 'CheckLowHammingWeight' else 6e6))
   return T
